@@ -10,6 +10,7 @@ only = sys.argv[1].split(",") if len(sys.argv) > 1 else None
 D = os.path.join(ROOT, "benign_seeded")
 def clean():
     subprocess.run(["git", "-C", REPO, "checkout", "--", "."], check=True)
+    subprocess.run(["git", "-C", REPO, "clean", "-fdq", "contracts", "packages"], check=True)  # files a patch added
 assert subprocess.run(["git", "-C", REPO, "status", "--porcelain", "--untracked-files=no"], stdout=subprocess.PIPE, text=True).stdout.strip() == "", "repo not clean"
 res = []
 try:
